@@ -60,12 +60,20 @@ fn main() {
             }
         });
     }
+    let markers = std::env::var("VMH_MARKERS").is_ok();
+    let mut opno = 0u64;
     for line in inp.lines() {
         let line = line.expect("read line");
         if line.trim().is_empty() {
             continue;
         }
         let v: serde_json::Value = serde_json::from_str(&line).expect("parse program line");
+        if markers {
+            // a recognisable no-op system call in front of every operation, for runs under strace
+            opno += 1;
+            let msg = format!("OP {opno}");
+            unsafe { libc::write(-1, msg.as_ptr() as *const libc::c_void, msg.len()) };
+        }
         tick.fetch_add(1, std::sync::atomic::Ordering::SeqCst); // odd: inside an operation
         let res = match std::panic::catch_unwind(std::panic::AssertUnwindSafe(|| exec.step(&v))) {
             Ok(r) => r,
